@@ -103,6 +103,7 @@ class RoundTrip(Harness):
                 tc_partner = zt.EUI64.convert("12:34:56:78:9a:bc:de:f0") if tc_known else zt.EUI64.UNKNOWN
                 nwk_key = zt.KeyData(bytes(range(0x10, 0x20)))
                 hashed = bytes(range(0x70, 0x80))
+                tc_key = bytes(range(0x50, 0x60)) if V == 4 else b"ZigBeeAlliance09"  # only v4 stores the link key itself
                 keys = [zigpy.state.Key(key=zt.KeyData(bytes([0x30 + j] * 16)), partner_ieee=zt.EUI64.convert("00:0d:6f:00:00:00:00:0%d" % (j + 1))) for j in range(nkeys)]
                 if refuse_first:
                     st.refuse_partners = [list(keys[0].partner_ieee.serialize())]
@@ -119,7 +120,7 @@ class RoundTrip(Harness):
                     extended_pan_id=zt.ExtendedPanId.convert(epan), pan_id=zt.PanId(pan), nwk_update_id=upd, nwk_manager_id=zt.NWK(0x0000), channel=chan,
                     channel_mask=zt.Channels.from_channel_list(mask), security_level=5,
                     network_key=zigpy.state.Key(key=nwk_key, seq=kseq, tx_counter=nfc),
-                    tc_link_key=zigpy.state.Key(key=zt.KeyData(b"ZigBeeAlliance09"), partner_ieee=tc_partner, tx_counter=tfc),
+                    tc_link_key=zigpy.state.Key(key=zt.KeyData(tc_key), partner_ieee=tc_partner, tx_counter=tfc),
                     key_table=keys, children=kids, nwk_addresses={k: zt.NWK(0x4000 + j) for j, k in enumerate(kids)},
                     stack_specific={"ezsp": ss} if ss else {}, metadata={})
                 node = zigpy.state.NodeInfo(nwk=zt.NWK(0x0000), ieee=node_ieee, logical_type=zt.uint8_t(0))
@@ -161,7 +162,7 @@ class RoundTrip(Harness):
                 if V > 4:
                     ctx.check(sec["bitmask"] & HASHED == HASHED and bytes(sec["preconfiguredKey"]) == exp_hashed, "hashed trust-centre link key not sent as given (%s)" % what, "hashed-tclk-sent")
                 else:
-                    ctx.check(sec["bitmask"] & 0x0080 == 0 and bytes(sec["preconfiguredKey"]) == b"ZigBeeAlliance09", "trust-centre link key not sent as given (%s)" % what, "tclk-sent")
+                    ctx.check(sec["bitmask"] & 0x0080 == 0 and bytes(sec["preconfiguredKey"]) == tc_key, "trust-centre link key not sent as given (%s)" % what, "tclk-sent")
                 # ---- read back
                 try:
                     await asyncio.wait_for(app.load_network_info(load_devices=True), 600)
@@ -173,10 +174,12 @@ class RoundTrip(Harness):
                 for nm, g, w in (("PAN ID", int(got.pan_id), pan), ("extended PAN ID", str(got.extended_pan_id), epan), ("channel", int(got.channel), chan),
                                  ("channel mask", int(got.channel_mask), int(zt.Channels.from_channel_list(mask))), ("update ID", int(got.nwk_update_id), upd),
                                  ("network key", bytes(got.network_key.key.serialize()), bytes(nwk_key.serialize())), ("network key sequence", int(got.network_key.seq), kseq),
-                                 ("trust-centre link key", bytes(got.tc_link_key.key.serialize()), b"ZigBeeAlliance09")):
+                                 ("trust-centre link key", bytes(got.tc_link_key.key.serialize()), tc_key)):
                     ctx.check(g == w, "%s read back as %r, written %r (%s)" % (nm, g, w, what), "readback:" + nm)
                 if chan not in mask:
                     ctx.label("mask-without-channel")
+                if V == 4:
+                    ctx.check("hashed_tclk" not in got.stack_specific.get("ezsp", {}), "v4 stores the link key itself, yet a hashed form %r was read back (%s)" % (got.stack_specific, what), "readback:spurious-hashed-tclk")
                 if V > 4:
                     ctx.check(got.stack_specific.get("ezsp", {}).get("hashed_tclk") == exp_hashed.hex(), "hashed link key read back as %r (%s)" % (got.stack_specific, what), "readback:hashed-tclk")
                     ctx.check(int(got.network_key.tx_counter) == nfc, "network-key frame counter read back as %r, written %r (%s)" % (got.network_key.tx_counter, nfc, what), "readback:frame-counter")
